@@ -103,7 +103,7 @@ def parse_output(text: str, res: TLCResult) -> None:
         if m:
             res.depth = int(m.group(1))
             continue
-        m = re.search(r"Finished computing initial states: (\d+) distinct state", s)
+        m = re.search(r"Finished computing initial states: (\d+) distinct state", s) or re.search(r"Finished computing initial states: \d+ states generated, with (\d+) of them distinct", s)
         if m:
             res.init_states = int(m.group(1))
             continue
